@@ -52,6 +52,7 @@ DEFAULT_PROFILE = {
     "allow_regex_nokeep_multi": False,  # regex delimiter not kept that can match different strings (C01 exclusion)
     "allow_regex_nokeep_single": True,  # regex delimiter not kept that always matches the same string (F2 shows on pack)
     "allow_eos": True,
+    "allow_noconsume": False,      # Data(until_marker=<bytes>, consume_delimiter=False): only where no pack() output is judged (C18)
     "allow_negative": True,        # allow expressions that can go negative (sizes/counts)
     "int_widths": [1, 1, 1, 2, 2, 3, 4, 5, 6, 7, 8, 9, 16],
     "flat": False,                 # C18: only int/bits/data, no modifiers
@@ -201,6 +202,8 @@ class Gen:
         elif mode == "marker":
             f["marker"] = rng.choice(MARKERS)
             f["include"] = rng.random() < 0.4
+            if self.p.get("allow_noconsume") and not f["include"] and rng.random() < 0.35:
+                f["noconsume"] = True      # consume_delimiter=False: the delimiter stays in the input for the next field
         elif mode == "regex":
             rid = rng.choice(sorted(REGEXES))
             f["rx"] = rid
